@@ -62,6 +62,7 @@ type GroupSpec struct {
 	// ViaPtr (nested groups): the field is a nil pointer to the group's struct,
 	// which the library allocates when it reads the declaration.
 	ViaPtr bool `json:"via_ptr,omitempty"`
+	PtrSet bool `json:"ptr_set,omitempty"` // ... or a pointer the program has set to a struct of its own
 }
 
 type CmdSpec struct {
@@ -669,6 +670,15 @@ func (b *Built) bindGroup(g *GroupSpec, v reflect.Value, c walkCtx, gpath string
 	for i, s := range g.Sub {
 		c2 := c
 		c2.ns, c2.ens, c2.hidden, c2.ownGroup = ns, ens, hidden, false
+		if s.ViaPtr && s.PtrSet {
+			// the program has allocated (and filled in) the struct itself
+			fv := v.FieldByName(fmt.Sprintf("Sub%d", i))
+			if fv.IsNil() { // (not when this is the late binding of a group the library has allocated already)
+				fv.Set(reflect.New(fv.Type().Elem()))
+			}
+			b.bindGroup(s, fv.Elem(), c2, gpath+"/"+s.Name)
+			continue
+		}
 		if s.ViaPtr {
 			// bound once the library has allocated the struct (see finishPtrGroups)
 			s, fv, sub := s, v.FieldByName(fmt.Sprintf("Sub%d", i)), gpath+"/"+s.Name
@@ -817,6 +827,15 @@ func Build(spec *DeclSpec) (b *Built) {
 			}
 			return append([]string{"kept:" + option}, args...), nil
 		}
+	case "expand":
+		// the handler replaces the option by several words (an alias expansion)
+		p.UnknownOptionHandler = func(option string, arg flags.SplitArgument, args []string) ([]string, error) {
+			v, has := arg.Value()
+			if err := cur.callee("unknown", fmt.Sprintf("%s|%s|%v", option, v, has), args); err != nil {
+				return nil, err
+			}
+			return append([]string{"exp1:" + option, "exp2", "exp3", "exp4"}, args...), nil
+		}
 	case "fail":
 		p.UnknownOptionHandler = func(option string, arg flags.SplitArgument, args []string) ([]string, error) {
 			cur.callee("unknown", option, args)
@@ -824,6 +843,8 @@ func Build(spec *DeclSpec) (b *Built) {
 		}
 	}
 	switch spec.CmdHandler {
+	case "":
+		p.CommandHandler = nil // (a program may well say so explicitly)
 	case "log":
 		p.CommandHandler = func(cmd flags.Commander, args []string) error {
 			return cur.callee("handler", commanderName(cmd), args)
